@@ -92,7 +92,13 @@ RULE = (
     "on and off), ctx, choice-fs and front-matter loaders: a kept template renders its own "
     "snapshot with the globals of the load that returned it; the only accepted exception is "
     "the listed shared-template finding (a later HIT on the same entry re-points the object), "
-    "reported under that finding's key.  Load-context routing: the 'tagroute' family runs the documented "
+    "reported under that finding's key.  Typed globals: successive callers load one "
+    "unchanged template passing globals whose values COMPARE EQUAL but are distinguishable "
+    "(1 / True / 1.0, 0 / False / 0.0, '' / nil / none, [1] / [True] / [1.0] / (1,), nested), "
+    "printed type-revealingly ({{ n }} and {{ n | json }}), on dict / fs / choice caching "
+    "loaders, with and without environment globals of the same name, sync and async: all "
+    "ordered pairs and all triples inside a group; the uncached twin is the oracle.  "
+    "Load-context routing: the 'tagroute' family runs the documented "
     "SnippetsFileSystemLoader customisation (get_source serves include/render targets from "
     "snippets/, and a user keyword variant='alt' from alt/) over CachingFileSystemLoader and "
     "a dict-based equivalent against the same subclass of the uncached loader: every history "
@@ -2332,6 +2338,7 @@ def shards(tier: str, seed: int) -> list[dict[str, Any]]:  # noqa: ARG001
     for i in range(ns):
         specs.append({"kind": "sched", "i": i, "n": ns})
     specs.append({"kind": "lrucache"})
+    specs.append({"kind": "typedglobals"})
     nt = 2 if tier == "quick" else 8
     for i in range(nt):
         specs.append({"kind": "threads", "i": i, "n": nt})
@@ -2354,6 +2361,8 @@ def floors(tier: str) -> dict[str, int]:
             "locals_histories_done": 13_968,
             "ctor_histories_done": 29_040,
             "held_histories_done": 35_602,
+            "typed_sequences_done": 7_362,
+            "set:typed_configs": 9,
             "held_renders_compared": 30_000,
             "set:ctor_configs": 44,
             "tagroute_histories_done": 25_248,
@@ -2392,6 +2401,8 @@ def floors(tier: str) -> dict[str, int]:
             "locals_histories_done": 13_968,
             "ctor_histories_done": 29_040,
             "held_histories_done": 35_602,
+            "typed_sequences_done": 7_362,
+            "set:typed_configs": 9,
             "held_renders_compared": 30_000,
             "set:ctor_configs": 44,
         "tagroute_histories_done": 25_248,
@@ -2436,6 +2447,8 @@ def exhaustive(tier: str, merged: dict[str, Any]) -> bool:
         return False
     if merged["counters"].get("held_histories_done", 0) != held_expected():
         return False
+    if merged["counters"].get("typed_sequences_done", 0) != typed_expected():
+        return False
     return got == want and not merged.get("truncated") and not merged.get("failed")
 
 
@@ -2449,6 +2462,9 @@ def run_shard(spec: dict[str, Any], ctx: Ctx) -> None:
     kind = spec["kind"]
     if kind == "lrucache":
         _lrucache(spec, ctx)
+        return
+    if kind == "typedglobals":
+        _typedglobals(spec, ctx)
         return
     if kind == "threads":
         _threads(spec, ctx)
@@ -3115,6 +3131,129 @@ def lrucache_check(cls: Any, cap: int, seq) -> tuple[str, str] | None:  # noqa: 
     return None
 
 
+# ---------------------------------------------------------------------------
+# globals whose values compare equal but are distinguishable (1 / True / 1.0 ...)
+# ---------------------------------------------------------------------------
+
+TYPED_BODY = "<{{ n }}|{{ n | json }}|{{ d.k }}|{{ d | json }}>"
+# value of global `n` (index 0: the caller passes no globals at all)
+TYPED_POOL: tuple[Any, ...] = (
+    "<no globals>", 1, True, 1.0, 0, False, 0.0, "", None, "1",
+    [1], [True], [1.0], (1,), [[0]], [[False]],
+)
+TYPED_GROUPS = ((1, 2, 3), (4, 5, 6), (10, 11, 12, 13), (14, 15), (7, 8, 0))
+TYPED_LOADERS = ("dict", "fs", "choice")
+TYPED_ENVS: tuple[dict[str, Any] | None, ...] = (None, {"n": 1, "d": {"k": 1}}, {"n": 0.0})
+
+
+def typed_sequences() -> list[tuple[int, ...]]:
+    """Index sequences into TYPED_POOL: every ordered pair, and every triple inside a
+    group of equal-comparing values."""
+    n = len(TYPED_POOL)
+    out: list[tuple[int, ...]] = [(a, b) for a in range(n) for b in range(n)]
+    for grp in TYPED_GROUPS:
+        out += [(a, b, c) for a in grp for b in grp for c in grp]
+    return out
+
+
+def typed_globals(i: int) -> dict[str, Any] | None:
+    if i == 0:
+        return None
+    v = TYPED_POOL[i]
+    return {"n": v, "d": {"k": v}}  # the same value once more, nested
+
+
+def typed_expected() -> int:
+    return len(typed_sequences()) * len(TYPED_LOADERS) * len(TYPED_ENVS) * 2
+
+
+def typed_run(k: Any, root: str, loader_kind: str, env_i: int, mode: int, seq: tuple[int, ...],
+              loop: Any) -> tuple[int, str, str] | None:
+    """One sequence of loads of ONE unchanged template by successive callers whose globals
+    differ only in the TYPE of equal-comparing values; the uncached twin (same arguments,
+    same environment globals) is the oracle.  Returns (step, observed, expected)."""
+    src = {"t": TYPED_BODY}
+    if loader_kind == "dict":
+        caching, twin = k.FaultyDict(src, capacity=2), k.DictLoader(src)
+    elif loader_kind == "choice":
+        caching = k.FaultyChoice([k.DictLoader(src)], capacity=2)
+        twin = k.ChoiceLoader([k.DictLoader(src)])
+    else:
+        caching, twin = k.FaultyFs(root, capacity=2), k.FileSystemLoader(root)
+    caching.vf_store = Store()
+    eg = TYPED_ENVS[env_i]
+    env = k.Environment(loader=caching, globals=eg)
+    tenv = k.Environment(loader=twin, globals=eg)
+
+    def once(e: Any, g: Any) -> str:
+        try:
+            if not mode:
+                return e.get_template("t", globals=g).render()
+
+            async def step() -> str:
+                t = await e.get_template_async("t", globals=g)
+                return await t.render_async()
+
+            if loader_kind == "fs":
+                return loop.run_until_complete(step())
+            return sched.drive(step())
+        except Exception as err:  # noqa: BLE001
+            return "!" + type(err).__name__
+
+    for step_i, vi in enumerate(seq):
+        g = typed_globals(vi)
+        exp = once(tenv, g)
+        obs = once(env, g)
+        if obs != exp:
+            return (step_i, obs, exp)
+    return None
+
+
+def _typedglobals(spec: dict[str, Any], ctx: Ctx) -> None:
+    k = K()
+    base = "/dev/shm" if os.path.isdir("/dev/shm") and os.access("/dev/shm", os.W_OK) else None
+    root = tempfile.mkdtemp(prefix="vf-c14-", dir=base)
+    loop = asyncio.new_event_loop()
+    loop.set_default_executor(InlineExecutor())  # type: ignore[arg-type]
+    try:
+        with open(os.path.join(root, "t"), "w", encoding="utf-8") as f:
+            f.write(TYPED_BODY)
+        seqs = typed_sequences()
+        reported = False
+        for lk in TYPED_LOADERS:
+            for env_i in range(len(TYPED_ENVS)):
+                ctx.seen("typed_configs", f"{lk}/env{env_i}")
+                for mode in (0, 1):
+                    for n, seq in enumerate(seqs):
+                        if n & 255 == 0:
+                            ctx.check_deadline()
+                        r = typed_run(k, root, lk, env_i, mode, seq, loop)
+                        ctx.count("typed_sequences_done")
+                        ctx.ev(len(seq))
+                        if len({repr(TYPED_POOL[v]) for v in seq}) > 1:
+                            ctx.nt("typed", lk, env_i, mode, seq)
+                        if r is not None:
+                            ctx.count("typed_sequences_diverged")
+                            ctx.violation(
+                                "stale-globals:equal-comparing-values",
+                                f"[{lk}, environment globals {TYPED_ENVS[env_i]!r}, "
+                                f"{'async' if mode else 'sync'}] caller {r[0]} passing "
+                                f"n={TYPED_POOL[seq[r[0]]]!r} rendered {r[1]!r}, the uncached "
+                                f"loader renders {r[2]!r} (previous callers passed "
+                                f"{[TYPED_POOL[v] for v in seq[: r[0]]]!r})",
+                                {"kind": "typedglobals", "loader": lk, "env": env_i,
+                                 "mode": mode, "seq": list(seq[: r[0] + 1]),
+                                 "values": [repr(TYPED_POOL[v]) for v in seq[: r[0] + 1]]},
+                            )
+                            reported = True
+        if not reported:
+            ctx.sample({"kind": "typedglobals", "body": TYPED_BODY,
+                        "values": [repr(v) for v in TYPED_POOL]})
+    finally:
+        loop.close()
+        shutil.rmtree(root, ignore_errors=True)
+
+
 def _lrucache(spec: dict[str, Any], ctx: Ctx) -> None:
     k = K()
     maxlen = 5 if spec["tier"] == "quick" else 6
@@ -3283,6 +3422,25 @@ def replay(wit: dict[str, Any], ctx: Ctx) -> None:
             print(f"key={v[0]}:{sched_pattern(sc)}: {v[1]}")
         else:
             print("no divergence")
+    elif kind == "typedglobals":
+        k = K()
+        base = "/dev/shm" if os.path.isdir("/dev/shm") and os.access("/dev/shm", os.W_OK) else None
+        root = tempfile.mkdtemp(prefix="vf-c14-", dir=base)
+        loop = asyncio.new_event_loop()
+        loop.set_default_executor(InlineExecutor())  # type: ignore[arg-type]
+        try:
+            with open(os.path.join(root, "t"), "w", encoding="utf-8") as f:
+                f.write(TYPED_BODY)
+            seq = tuple(int(x) for x in wit["seq"])
+            r = typed_run(k, root, wit["loader"], int(wit["env"]), int(wit["mode"]), seq, loop)
+            print(f"replay C14 typedglobals {wit['loader']} env={TYPED_ENVS[int(wit['env'])]!r} "
+                  f"values={[TYPED_POOL[v] for v in seq]!r} -> {r}")
+            if r is not None:
+                ctx.violation("stale-globals:equal-comparing-values",
+                              f"caller {r[0]} rendered {r[1]!r}, the uncached loader {r[2]!r}", wit)
+        finally:
+            loop.close()
+            shutil.rmtree(root, ignore_errors=True)
     elif kind == "lrucache":
         k = K()
         cls = k.LRUCache if wit["cls"] == "LRUCache" else k.ThreadSafeLRUCache
